@@ -11,7 +11,7 @@ from concurrent.futures import ThreadPoolExecutor
 PROP = "C15"
 META = {
  "engine": "S-scheduler",
- "text": "Coq theorems (Props/C15.v, closed under the global context) prove for EVERY finite stream of control points (any values, any durations, any ticks_per_beat, linear and cosine mode, any event-count limit): the trace of the track is the first value followed by, for each consecutive pair of points, the D_i values v_i + (v_next - v_i) f(j/D_i), j = 1..D_i (f = id or (1 - cos(pi x))/2), hence exactly one control call on each of the 1 + sum D_i ticks and none after; each point is hit exactly (cos pi = -1), values stay between the segment's end points (-1 <= cos <= 1), zero-length points contribute no tick (jump), non-numeric fields and numeric fields equal at both ends are emitted unchanged, and a segment with a non-control end raises InvalidEventException without a call; durations within 5e-9 of a whole number of ticks count as that number. The model is a transcription of PInterpolate.__next__, PDict.__next__ and the interpolating branch of Track.tick as state machines and is tied to the repository on every run: several hundred tracks (8 resolutions, 2-8 points, rising/falling ints and floats, segment lengths 0/1/2/5/29/57/N/3N, float-awkward durations, quantize/delay/count, looping patterns, string controls, mixed-in non-control events) are run on a real Timeline tick by tick and every control() call (tick index exact; values exact where the exact value is a double, else 1e-9) is compared inside Coq (vm_compute) with the model's trace; an independent closed-form oracle in Fractions judges each implementation trace and supplies the failing input. Second round - the timeline's resolution is re-configured AFTER the track was scheduled (timeline.ticks_per_beat = n, timeline.clock_source = <clock with another resolution>, timeline.clock_source.ticks_per_beat = n; before the track's first tick - started at once or by quantize/delay -, between two segments, on a planning tick, in the middle of a segment; once or twice; finer, coarser, multiples, divisors, the same value): Sched/InterpRetime.v carries the resolution in the state of a history of ticks and changes (rt_trace; runv = tick k made at the resolution R k, R arbitrary) and the theorems C15_retime_* prove for EVERY such history that a segment is planned with D = round(duration x the resolution in force on its planning tick) steps (the first segment on the track's first tick, every later one on the tick after its starting point was sent), sends one message per tick, follows the curve formula with that D, hits its end point exactly and keeps its plan whatever the resolution does while it is under way (C15_retime_plan_kept); about a hundred such tracks are run on a real Timeline, judged by the oracle (D_i = duration_i x the resolution in force when segment i begins) and compared with the model (timeline_runv, in which the timeline's time advances by exactly one tick of the resolution in force, as the repaired Timeline.tick does: no snapping onto the new grid). Segments longer than any internal limit of the library (duration * ticks_per_beat >= Pattern.LENGTH_MAX, the constant read from the source under test): the theorems hold for every segment length; C15_trace_at ties the track to the pointwise closed form spec_at (Sched/InterpAt.v), and every run drives two tracks with a segment of LENGTH_MAX ticks or more (first segment / later segment, linear / cosine), every tick judged by the closed-form oracle, the number of calls, the values around LENGTH_MAX ticks into the segment, at its end and at the later points and the silence after compared with spec_at.",
+ "text": "Coq theorems (Props/C15.v, closed under the global context) prove for EVERY finite stream of control points (any values, any durations, any ticks_per_beat, linear and cosine mode, any event-count limit): the trace of the track is the first value followed by, for each consecutive pair of points, the D_i values v_i + (v_next - v_i) f(j/D_i), j = 1..D_i (f = id or (1 - cos(pi x))/2), hence exactly one control call on each of the 1 + sum D_i ticks and none after; each point is hit exactly (cos pi = -1), values stay between the segment's end points (-1 <= cos <= 1), zero-length points contribute no tick (jump), non-numeric fields and numeric fields equal at both ends are emitted unchanged, and a segment with a non-control end raises InvalidEventException without a call; durations within 5e-9 of a whole number of ticks count as that number. The model is a transcription of PInterpolate.__next__, PDict.__next__ and the interpolating branch of Track.tick as state machines and is tied to the repository on every run: several hundred tracks (8 resolutions, 2-8 points, rising/falling ints and floats, segment lengths 0/1/2/5/29/57/N/3N, float-awkward durations, quantize/delay/count, looping patterns, string controls, mixed-in non-control events) are run on a real Timeline tick by tick and every control() call (tick index exact; values exact where the exact value is a double, else 1e-9) is compared inside Coq (vm_compute) with the model's trace; an independent closed-form oracle in Fractions judges each implementation trace and supplies the failing input. Second round - the timeline's resolution is re-configured AFTER the track was scheduled (timeline.ticks_per_beat = n, timeline.clock_source = <clock with another resolution>, timeline.clock_source.ticks_per_beat = n; before the track's first tick - started at once or by quantize/delay -, between two segments, on a planning tick, in the middle of a segment; once or twice; finer, coarser, multiples, divisors, the same value): Sched/InterpRetime.v carries the resolution in the state of a history of ticks and changes (rt_trace; runv = tick k made at the resolution R k, R arbitrary) and the theorems C15_retime_* prove for EVERY such history that a segment is planned with D = round(duration x the resolution in force on its planning tick) steps (the first segment on the track's first tick, every later one on the tick after its starting point was sent), sends one message per tick, follows the curve formula with that D, hits its end point exactly and keeps its plan whatever the resolution does while it is under way (C15_retime_plan_kept); about a hundred such tracks are run on a real Timeline, judged by the oracle (D_i = duration_i x the resolution in force when segment i begins) and compared with the model (timeline_runv, in which the timeline's time advances by exactly one tick of the resolution in force, as the repaired Timeline.tick does: no snapping onto the new grid). Segments longer than any internal limit of the library (duration * ticks_per_beat >= Pattern.LENGTH_MAX, the constant read from the source under test): the theorems hold for every segment length; C15_trace_at ties the track to the pointwise closed form spec_at (Sched/InterpAt.v), and every run drives two tracks with a segment of LENGTH_MAX ticks or more (first segment / later segment, linear / cosine), every tick judged by the closed-form oracle, the number of calls, the values around LENGTH_MAX ticks into the segment, at its end and at the later points and the silence after compared with spec_at. How the event stream is supplied (dict of patterns, PDict, PDict of a list of dicts, a pattern building a fresh dict per event, a PSequence / PLoop of dict literals that yields the SAME dict objects again on a second and third pass, endless with a count limit, or twice within one pass): 64 such tracks per run are judged by the closed-form oracle over the unrolled passes (one message per tick, every point of EVERY pass on its own tick) and compared with the model on the unrolled stream; Props/C15Loop.v (Sched/InterpLoop.v) proves for every cycle and every number of passes that the trace is the first point followed by the same one-pass curve on every pass (C15_loop_trace, C15_loop_every_pass, C15_loop_passes_agree). Object identity is not expressible in the functional model: aliasing (a track writing into the dicts it is handed) is covered by the correspondence check and the oracle only.",
  "note": "Trusted: Coq kernel + VM; the Python harness; libm: cos(pi x) is taken from math.cos (a table of the values the run needs is handed to the model; the theorems assume only cos(pi*1) = -1 and -1 <= cos <= 1); IEEE double arithmetic of a + dt*(n+1)/D is validated by the exact/1e-9 comparison, not modelled bit by bit. Modelled not verified: Event construction and defaults (event.py) enter as data; the start tick (quantize/delay) is transcribed from Track.update/_schedule_action but its properties belong to the scheduling properties. Resolution changes: the oracle abstains when a change falls between the tick of a control point and the next tick (the text does not say which segment it belongs to; the model, like the code, plans the new segment with the new resolution); a deferred start after a change is judged exactly (beats elapse at 1 / the resolution in force per tick; exact arithmetic - that the float clock of advance_on_tick_grid stays within rounding error of it is Base/FloatGrid.v retick_run_exact, not part of this cone). Not covered: changes made from inside a tick (by another track's event), output-device clock multipliers after a change, real clocks and tempo. Not covered: INTERPOLATION_NONE branch, muted/inactive events, tracks whose numeric field is missing in the next point (model: OErr).",
 }
 
@@ -153,7 +153,10 @@ def gen_points(rng, N, n, budget, dset=None, allow_zero=True):
     return pts
 
 
-def make_case(rng, stratum, N=None, mode=None):
+SUPPLY = ["dict", "pdict", "pdict-list", "fresh", "shared", "shared-endless", "shared-ploop", "shared-in-pass"]
+
+
+def make_case(rng, stratum, N=None, mode=None, sub=None):
     N = N or rng.choice(NS)
     mode = mode or rng.choice(["linear", "cosine"])
     c = {"stratum": stratum, "N": N, "mode": mode, "pre": 0, "quantize": None, "delay": None, "count": None,
@@ -192,6 +195,34 @@ def make_case(rng, stratum, N=None, mode=None):
         c["points"] = gen_points(rng, N, m, 700)
         c["loop"] = True
         c["count"] = rng.randint(2, 9)
+    elif stratum == "supply":
+        # HOW the event stream is handed to schedule(): dict of patterns / PDict / PDict(array of dicts) / a pattern building a
+        # fresh dict per event / a pattern yielding the SAME dict objects again (2-3 passes, endless + count, PLoop, or the
+        # same object twice within one pass).  points = the distinct control points, order = one pass, passes = repetitions.
+        how = sub or rng.choice(SUPPLY)
+        c["supply"] = c["edge"] = how
+        m = rng.randint(2, 4)
+        c["points"] = gen_points(rng, N, m, 240, dset=[1, 2, 5, 29, max(1, N // 2), N, 0], allow_zero=rng.random() < 0.25)
+        c["order"] = list(range(m))
+        c["passes"] = rng.choice([2, 2, 3])
+        if how in ("dict", "pdict"):
+            c["form"] = "dict"
+        else:
+            c["form"] = "seq"
+        if how == "pdict-list":
+            c["passes"] = 1
+        elif how == "shared-endless" or (how == "fresh" and rng.random() < 0.4):
+            c["passes"] = None
+            c["count"] = rng.randint(m + 1, 3 * m + 1)
+        elif how == "shared-in-pass":
+            k = rng.randrange(m)
+            c["order"] = list(range(m)) + [k] + ([rng.randrange(m)] if rng.random() < 0.4 else [])
+            c["passes"] = rng.choice([1, 2])
+        if rng.random() < 0.25:
+            c["pre"] = rng.choice([0, 1, 3])
+            c["quantize"] = rng.choice([1, 0.5])
+        elif c["passes"] is not None and rng.random() < 0.15:
+            c["count"] = rng.randint(2, max(2, len(c["order"]) * c["passes"]))
     elif stratum == "seq":
         c["form"] = "seq"
         c["points"] = gen_points(rng, N, n, budget)
@@ -396,7 +427,10 @@ def default_dur_ticks(info, N):
 def stream_of(case, info):
     """the finite event stream the track will see (loops unrolled; the count limit is NOT applied here)"""
     pts = case["points"]
-    if case["loop"]:
+    if case.get("order") is not None:
+        one = [pts[i] for i in case["order"]]
+        pts = one * case["passes"] if case["passes"] is not None else [one[i % len(one)] for i in range(case["count"] + 2)]
+    elif case["loop"]:
         k = (case["count"] or 0) + 2
         pts = [pts[i % len(pts)] for i in range(k)]
     out = []
@@ -415,10 +449,13 @@ def stream_of(case, info):
 def payload_of(case):
     p = {k: case[k] for k in ("N", "mode", "pre", "quantize", "delay", "count", "ignore_exceptions", "form")}
     p["changes"] = case.get("changes", [])
+    if case.get("supply"):
+        p["supply"], p["order"], p["passes"] = case["supply"], case["order"], case["passes"]
     if case["form"] == "dict":
+        one = case["points"] if case.get("order") is None else [case["points"][i] for i in case["order"]]
         f = {"control": {"const": case["control"]},
-             "value": {"seq": [q["value"] for q in case["points"]], "loop": case["loop"]},
-             "duration": {"seq": [q["dur"] for q in case["points"]], "loop": case["loop"]}}
+             "value": {"seq": [q["value"] for q in one], "loop": case["loop"]},
+             "duration": {"seq": [q["dur"] for q in one], "loop": case["loop"]}}
         f["channel"] = {"const": case["channel"]}
         p["fields"] = f
     else:
@@ -445,13 +482,31 @@ def payload_of(case):
 def snippet(case):
     kw = "".join(", %s=%r" % (k, case[k]) for k in ("quantize", "delay", "count") if case[k] is not None)
     pl = payload_of(case)
+    setup = ""
+    supply = case.get("supply")
+    reps = "" if case.get("passes") is None else ", %d" % case["passes"]
     if case["form"] == "dict":
-        seq = lambda s: "iso.PSequence(%r%s)" % (s["seq"], "" if s.get("loop") else ", 1")
+        seq = lambda s: "iso.PSequence(%r%s)" % (s["seq"], reps if supply else "" if s.get("loop") else ", 1")
         ev = "{'control': %r, 'value': %s, 'duration': %s, 'channel': %r}" % (
             case["control"], seq(pl["fields"]["value"]), seq(pl["fields"]["duration"]), case["channel"])
-    else:
+        if supply == "pdict":
+            ev = "iso.PDict(%s)" % ev
+    elif not supply:
         ev = "iso.PSequence(%r, 1)" % (pl["events"],)
-    return ("import isobar as iso\n"
+    else:
+        setup = "D = %r\nS = [D[i] for i in %r]     # one pass; the same dict object wherever an index recurs\n" % (pl["events"], pl["order"])
+        if supply == "fresh":
+            setup += ("class Fresh(iso.Pattern):\n    pos = 0\n    def __next__(self):\n"
+                      "        if %s: raise StopIteration\n        self.pos += 1; return dict(S[(self.pos - 1) %% len(S)])\n" % (
+                          "False" if case["passes"] is None else "self.pos >= %d * len(S)" % case["passes"]))
+            ev = "Fresh()"
+        elif supply == "pdict-list":
+            ev = "iso.PDict(S)"
+        elif supply == "shared-ploop":
+            ev = "iso.PLoop(iso.PSequence(S, 1)%s)" % reps
+        else:
+            ev = "iso.PSequence(S%s)" % reps
+    return ("import isobar as iso\n" + setup +
             "class Rec(iso.OutputDevice):\n"
             "    now = 0\n"
             "    def control(self, control=0, value=0, channel=0): print(self.now, control, value, channel)\n"
@@ -782,6 +837,12 @@ def run_cases(run, cases, info):
         run.dist("stratum.%s" % c["stratum"] + (".%s" % c["edge"] if "edge" in c else ""))
         run.dist("N.%d" % c["N"])
         run.dist("mode.%s" % c["mode"])
+        if c.get("supply"):
+            run.dist("supply.passes.%s" % ("endless+count" if c["passes"] is None else c["passes"]))
+            if c["supply"] in ("shared", "shared-endless", "shared-ploop", "shared-in-pass") and len(stream_of(c, info)[:c["count"] or None]) > len(set(c["order"])):
+                run.dist("supply.same-dict-object-yielded-again")
+            if c["quantize"]:
+                run.dist("supply.deferred-start")
         if c.get("changes"):
             run.dist("retime.changes.%d" % len(c["changes"]))
             for ch in c["changes"]:
@@ -964,7 +1025,7 @@ def check(run):
     rng = run.rng
     scale = 1 if run.tier == "quick" else 15
     plan = [("basic", 90), ("three-plus", 60), ("awkward", 40), ("sched", 50), ("count", 35), ("loop", 30),
-            ("seq", 40), ("reject", 45), ("edge", 40), ("retime", 110)]
+            ("seq", 40), ("reject", 45), ("edge", 40), ("retime", 110), ("supply", 64)]
     cases = []
     # the documented scenario of DESIGN section 6 #10, always present
     fixed = make_case(rng, "awkward", N=100, mode="linear")
@@ -976,9 +1037,12 @@ def check(run):
             # every resolution and both modes in every stratum
             N = NS[k % len(NS)] if k < 2 * len(NS) else None
             mode = ["linear", "cosine"][(k // len(NS)) % 2] if k < 2 * len(NS) else None
-            cases.append(make_case(rng, stratum, N=N, mode=mode))
+            cases.append(make_case(rng, stratum, N=N, mode=mode, sub=SUPPLY[(k + k // len(SUPPLY)) % len(SUPPLY)] if stratum == "supply" else None))
     for i in range(0, len(cases), 500):
         run_cases(run, cases[i:i + 500], info)
+    again = run.cov["distribution"].get("supply.same-dict-object-yielded-again", 0)
+    if again < 20 * scale:
+        raise CheckError("supply stratum: only %d tracks whose event pattern yields the same dict object again (floor %d)" % (again, 20 * scale))
     # segments of LENGTH_MAX ticks and more (the constant of the source under test)
     lm = run.cov["LENGTH_MAX"] = length_max()
     if lm <= 200000:
